@@ -478,7 +478,7 @@ def run(ctx):
                ((2, 2, 2), A1, U if q else UT, 0)]
     pairs = [((3,), A7, ALLV, 7, 1), ((3,), A12, ALLV, 0, 1), ((4,), A12, UT, 0, 1),
              ((2, 2), A70, UT, 7, 1), ((2, 2), A1, ALLV, 0, 1), ((2, 2), A12, UT, 0, 0),
-             ((2, 2, 1), A1, U if q else ALLV, 0, 0)]
+             ((2, 2, 1), A1, UT if q else ALLV, 0, 0)]
     capped = [] if q else [((2, 2), A12, ("ut",), 0, 1, 90), ((2, 2, 1), A12, UT, 0, 0, 150),
                            ((5,), A12, U, 0, 0, 100), ((2, 3), A1, U, 0, 0, 100), ((3, 2), A1, U, 0, 0, 150)]
     neigh = (2, 2, 2, A1, U if q else UT)
